@@ -53,6 +53,16 @@ def r1_rename_map(ctx, rep):
                 f"`result[{key}] = obj` ignores the rename map on the path [{' & '.join(reversed(conds))}]: "
                 f"`use m, local => remote` (without ONLY) keeps the entity under its remote name and never "
                 f"defines the local one"), py.nloc(st))
+    # the map is shared by the four filter passes (procs, absints, types, vars): read-only in used_objects
+    muts = [c for c in py.walk_calls(uo) if isinstance(c.func, ast.Attribute) and ast.unparse(c.func.value) == "used_names"
+            and c.func.attr in ("pop", "popitem", "clear", "update", "setdefault")]
+    muts += [n for n in ast.walk(uo) if isinstance(n, (ast.Delete,)) and "used_names" in ast.unparse(n)]
+    muts += [n for n in ast.walk(uo) if isinstance(n, ast.Subscript) and isinstance(n.ctx, ast.Store)
+             and ast.unparse(n.value) == "used_names"]
+    rep.ob("the rename map is not consumed while filtering one entity kind", not muts,
+           "used_names is only read inside used_objects" if not muts else
+           f"`{ast.unparse(muts[0])[:50]}` removes names from the map shared by the four kind passes: a name that denotes "
+           f"both a type and its same-named constructor interface is imported for the first kind only", py.nloc(muts[0]) if muts else py.nloc(uo))
     # early return only for an empty tail
     first = [s for s in fn.body if isinstance(s, ast.If)][0]
     ok = ast.unparse(first.test) == "len(use_specs.strip()) == 0" and "return (self.pub_procs, self.pub_absints, self.pub_types, self.pub_vars)" in ast.unparse(first)
